@@ -101,6 +101,19 @@ func NewInterp(p *Program, lim Limits) *Interp {
 		TruncWhy: map[string]int{}, Unsupported: map[string]int{}, baseHeap: map[int]AV{},
 		liveCache: map[*ssa.Function]*liveInfo{}, seen: map[uint64]bool{}}
 	it.initGlobals()
+	hasCustomUnmarshal = func(t types.Type) bool {
+		nt, ok := t.(*types.Named)
+		if !ok || nt.Obj().Pkg() == nil || p.SSA[nt.Obj().Pkg().Path()] == nil {
+			return false
+		}
+		ms := p.Prog.MethodSets.MethodSet(types.NewPointer(nt))
+		for _, m := range []string{"UnmarshalJSON", "UnmarshalBSON"} {
+			if ms.Lookup(nt.Obj().Pkg(), m) != nil {
+				return true
+			}
+		}
+		return false
+	}
 	return it
 }
 
@@ -169,8 +182,9 @@ func (it *Interp) initGlobals() {
 			et := g.Type().Underlying().(*types.Pointer).Elem()
 			var v AV
 			if types.IsInterface(et) {
-				// error variables: initialised by errors.New in every orb package
-				v = IfaceV{}
+				// zero value; the abstract evaluation of the package initialiser below stores the
+				// errors.New(...) values (if that evaluation fails the variable is reset to "non-nil")
+				v = IfaceV{Nil: true}
 			} else {
 				v = topOf(et, true)
 			}
@@ -206,6 +220,14 @@ func (it *Interp) initGlobals() {
 			it.InitNotes[path] = "evaluated"
 		} else {
 			it.InitNotes[path] = fmt.Sprintf("not evaluated (%d paths, %d faults): globals stay unknown", len(it.Finished), len(it.Faults))
+			for _, m := range sp.Members {
+				if g, ok := m.(*ssa.Global); ok {
+					et := g.Type().Underlying().(*types.Pointer).Elem()
+					if types.IsInterface(et) {
+						it.baseHeap[it.globals[g]] = IfaceV{Top: true, Opq: true}
+					}
+				}
+			}
 		}
 		it.Faults, it.Finished = nil, nil
 	}
@@ -754,6 +776,9 @@ func (it *Interp) load(s *State, in ssa.Instruction, p AV, t types.Type) AV {
 		it.forkNil(s, in, "pointer", ptr.Opq)
 	}
 	if ptr.Top {
+		if ptr.Hostile {
+			return hostileOf(t)
+		}
 		return topOf(t, ptr.Opq)
 	}
 	cell, ok := s.heap[ptr.Cell]
@@ -765,6 +790,39 @@ func (it *Interp) load(s *State, in ssa.Instruction, p AV, t types.Type) AV {
 		return topOf(t, isOpq(v))
 	}
 	return v
+}
+
+// hostileOf: a value of type t chosen by the attacker (inside a structure
+// decoded from hostile input): references may be nil, scalars are free.
+// hasCustomUnmarshal: values of this type are produced by the type's own
+// UnmarshalJSON/UnmarshalBSON (called by the reflection-based decoder), so their
+// contents satisfy whatever that method establishes - not attacker-chosen field by field.
+var hasCustomUnmarshal = func(t types.Type) bool { return false }
+
+func hostileOf(t types.Type) AV {
+	switch u := t.Underlying().(type) {
+	case *types.Pointer:
+		if hasCustomUnmarshal(u.Elem()) {
+			// may be nil (JSON null), but what it points to was built by its own decoder: opaque
+			return PtrV{Top: true, MayNil: true, Opq: false}
+		}
+		return PtrV{Top: true, MayNil: true, Hostile: true}
+	case *types.Slice:
+		return SliceV{Top: true, MayNil: true, Hostile: true}
+	case *types.Interface:
+		return IfaceV{Top: true, MayNil: true}
+	case *types.Struct:
+		sv := StructV{Fields: make([]AV, u.NumFields())}
+		for i := range sv.Fields {
+			sv.Fields[i] = hostileOf(u.Field(i).Type())
+		}
+		return sv
+	case *types.Array:
+		return topOf(t, false)
+	case *types.Map:
+		return MapV{}
+	}
+	return topOf(t, false)
 }
 
 // forkNil handles a free-nilable reference: the nil alternative faults (it is
@@ -829,9 +887,13 @@ func (it *Interp) eval(s *State, fr *Frame, v ssa.Value) AV {
 		if p.MayNil {
 			it.forkNil(s, x, "pointer", p.Opq)
 			p.MayNil = false
+			// the surviving path is the one where it was not nil
+			if _, isConst := x.X.(*ssa.Const); !isConst {
+				fr.env[x.X] = p
+			}
 		}
 		if p.Top {
-			return PtrV{Top: true, Opq: p.Opq}
+			return PtrV{Top: true, Opq: p.Opq, Hostile: p.Hostile}
 		}
 		np := PtrV{Cell: p.Cell, Path: append(append([]int(nil), p.Path...), x.Field)}
 		return np
@@ -1460,12 +1522,21 @@ func (it *Interp) indexAddr(s *State, fr *Frame, x *ssa.IndexAddr) AV {
 	idx, _ := it.val(fr, x.Index).(IntV)
 	switch b := base.(type) {
 	case SliceV:
-		if b.MayNil {
-			// a nil slice has length 0: any index faults
-			it.forkNil(s, x, "slice", b.Opq)
+		// (a possibly-nil slice has length 0 when nil; reaching an index implies a passed length test)
+		if b.Top && b.Hostile && b.Arr != 0 && idx.Known && idx.V >= 0 && idx.V < 64 {
+			// elements of a slice decoded from hostile input are materialised on first use so
+			// that what a check establishes about element i is remembered
+			arr, _ := s.heap[b.Arr].(ArrV)
+			et := x.X.Type().Underlying().(*types.Slice).Elem()
+			for int64(len(arr.Elems)) <= idx.V {
+				arr.Elems = append(append([]AV(nil), arr.Elems...), hostileOf(et))
+			}
+			arr.N = len(arr.Elems)
+			s.heap[b.Arr] = arr
+			return PtrV{Cell: b.Arr, Path: []int{int(idx.V)}}
 		}
 		if b.Top {
-			return PtrV{Top: true, Opq: b.Opq}
+			return PtrV{Top: true, Opq: b.Opq, Hostile: b.Hostile}
 		}
 		n := 0
 		if !b.Nil {
